@@ -269,7 +269,7 @@ theorem parseLabels_ok : ∀ (fuel : Nat) (p : Parser) (acc : List Label) (last 
     · dsimp only
       split
       · apply ih
-        · split <;> exact h
+        · unfold skipColon; split <;> exact h
         · exact ht
         · intro sp hsp; simp only [Option.mem_def, Option.some.injEq] at hsp; subst hsp; exact cursor_ok N p (h ▸ ht)
       · split
